@@ -495,7 +495,7 @@ func (fx *Fx) callFuncValue(st *State, call *ast.CallExpr, preArgs []Val) []Val 
 	}
 	st.assume(fmt.Sprintf("(not (= %s 0))", fv.T))
 	c.declareFun("fn_code", []string{"Int"}, "Int")
-	st.logEvent(evTerm("Call", "(fn_code "+fv.T+")", a0, a1, ""))
+	st.logEvent(evTerm("FnCall", "(fn_code "+fv.T+")", a0, a1, ""))
 	// ghost: number of calls made through each function value (by code id)
 	nc := st.heap("NC", "(Array Int Int)")
 	st.setHeap("NC", "(Array Int Int)", fmt.Sprintf("(store %s (fn_code %s) (+ (select %s (fn_code %s)) 1))", nc, fv.T, nc, fv.T))
@@ -822,6 +822,9 @@ func (fx *Fx) pureApp(st *State, key string, i int, recv *Val, args []Val, rt ty
 func (fx *Fx) loadedPure(st *State, v Val) Val {
 	if ra := fx.c.rangeAssume(v.T, v.GT); ra != "" {
 		st.assume(ra)
+	}
+	if rf := fx.c.refTypeFact(v.T, v.GT); rf != "" {
+		st.assume(rf)
 	}
 	return v
 }
